@@ -590,7 +590,7 @@ def summarize(F, key):
         if bi in live and any(re.search(r"^core::(option::Option|result::Result)::[a-z_]+$", nm) for nm in callee_names(t)):
             combs += 1
     return {"must": must, "order": order, "args": args, "guards": guards, "silent": silent, "assigns": assigns, "ret": ret,
-            "consts": const_census(fn), "universe": sorted(universe), "gates": gates, "gates_tested": gates_tested, "combs": combs, "rejects": rejects, "reject_vars": sorted(var_blocks), "each": each, "loops": loops, "phase": phase, "ret_alts": ret_alts, "flags": flags, "loop_anon": loop_anon, "silent_n": silent_n, "ws_calls": ws_calls, "sites": dict(sites), "argc": fn["argc"],
+            "consts": const_census(fn), "universe": sorted(universe), "gates": gates, "gates_tested": gates_tested, "combs": combs, "rejects": rejects, "reject_vars": sorted(var_blocks), "each": each, "loops": loops, "phase": phase, "ret_alts": ret_alts, "flags": flags, "loop_anon": loop_anon, "silent_n": silent_n, "ws_calls": ws_calls, "sites": dict(sites), "argc": fn["argc"], "is_res": bool(is_res),
             "guard_n": sorted([json.loads(g), c] for g, c in gcount.items() if c > 1), "guard_all": dict(gcount)}
 
 
@@ -1167,8 +1167,11 @@ def check(ctx, prop, also=()):
         # ---- must (helper / closure tolerance: a callee or a closure of this function ensures the call)
         cl_must = {_short_callee(x) for cl in closures for x in cs.get(cl)["must"]}
         cur_must_short = {_short_callee(x) for x in cur["must"]}
+        kind_changed = b.get("is_res") is not None and bool(b["is_res"]) != bool(cur.get("is_res"))
         for m in b["must"]:
             n["must"] += 1
+            if kind_changed:
+                continue  # the function turned from Result-returning into something else (or back): which exits are "error exits" is not comparable
             mc = _short_callee(m)
             if m in cur["must"] or mc in cur_must_short:
                 continue
